@@ -3,8 +3,13 @@ mod gen;
 mod orch;
 mod p_flow;
 mod p_hist;
+mod p_ls;
+mod p_nbh;
 mod p_net;
+mod p_pipe;
 mod p_solve;
+mod p_tour;
+mod p_trans;
 mod rng;
 
 use orch::{CaseFn, RunSpec};
@@ -14,7 +19,12 @@ fn case_fn_for(prop: &str) -> CaseFn {
     match prop {
         "C01" | "C02" | "C03" | "C04" | "C05" | "C06" | "C07" => p_solve::case,
         "C09" | "C10" | "C13" => p_hist::case,
+        "C08" => p_ls::case,
+        "C11" => p_nbh::case,
+        "C16" => p_pipe::case,
+        "C12" => p_tour::case,
         "C14" => p_flow::case,
+        "C15" => p_trans::case,
         "C17" => p_net::case,
         _ => panic!("unknown property {}", prop),
     }
@@ -56,6 +66,42 @@ fn spec_for(prop: &str, tier: &str, seed: u64) -> RunSpec {
             s.rule = "seeded random walks (30-200 operations) over the public modification API of Schedule, starting from the empty schedule, one-vehicle-per-trip and the min-cost-flow solution; after every Ok operation the full observable state is snapshotted and judged; non-trivial = distinct (instance, operation kind, argument shape) triples that returned Ok and changed the state; monitor_counters lists every covered shape cell".to_string();
             s.cases = if thorough { 20000 } else { 400 };
             s.min_nontrivial = 50;
+        }
+        "C08" => {
+            s.rule = "instances with maintenance slots; the real build_local_search_solver(..).solve() runs on the depot-improved min-cost-flow solution while hook H1 records every accepted step; offline trace checker: recorded objective vectors = true (unserved, violation, vehicles, costs) recomputed by the reference model in that order, every step strictly lexicographically improving, chain gapless from the start solution to the returned result, result <= start, second run accepts nothing, and an independent scan of neighbors_of(result) finds nothing better. non-trivial = distinct instances whose search accepted >= 1 step".to_string();
+            s.cases = if thorough { 6000 } else { 250 };
+            s.cpu_budget_s = 60.0;
+        }
+        "C11" => {
+            s.rule = "walks through RSSchedParallelNeighborhood::neighbors_of picking a uniformly random (not improving) candidate, from min-cost-flow, one-vehicle-per-trip and history-reached states, production and unlimited segment parameters, RAYON_NUM_THREADS in {1,2,4,16}, with concurrent generation on a shared base; every candidate is snapshotted and passes the complete C09 (recomputation) and C10 (structure) oracles, the base schedule is compared before/after. non-trivial = distinct (instance, walk prefix) states with a non-empty neighbourhood".to_string();
+            s.cases = if thorough { 6000 } else { 200 };
+            s.cpu_budget_s = 60.0;
+            s.crash_is_violation = true;
+            s.rayon_threads = vec![1, 2, 4, 16];
+        }
+        "C16" => {
+            s.rule = "one server::solve_instance call per generated instance (maintenance/depot heavy), hook H2 records the schedules bound after each stage and the optimiser's transitions, hook H1 the search steps; trace checker: start = depot-improved flow solution, search result = end of the step chain, optimised schedule carries T*, final schedule has the search result's activities, T* as cycles (as multisets of cyclic sequences) and end depots following T*, the JSON is the final schedule with T* as vehicleCycles and a truthful objective. non-trivial = distinct instances where the optimiser's cycles differ from the search result's (otherwise a dropped stage is unobservable)".to_string();
+            s.cases = if thorough { 8000 } else { 500 };
+            s.cpu_budget_s = 60.0;
+            s.min_nontrivial = 10;
+        }
+        "C12" => {
+            let fam = p_tour::family_chunks(thorough);
+            s.rule = format!("direct calls of Tour::insert_path/remove/sub_path/conflict/check_removable on tours obtained through Schedule::tour_of, compared with the reference insert/remove semantics. Bounded family: 2 locations, 5 time slots, activities of 1-2 slots, <= 3 non-depot nodes (trips, slots), dead-head 0-2 slots per direction, shunting 0/1 slots, forbid on/off = {} networks ({} with <= 2 nodes); in each network every chain as real and as dummy tour x every chain as path (4 depot variants) x every segment. quick: all networks with <= 2 nodes + 60 seeded chunks of the 3-node part + random networks; thorough: the whole family + random networks up to 12 nodes. non-trivial = distinct (network, tour, argument) triples where a node was dropped, a time tie exists between argument and tour, or a removal had to be refused", p_tour::family_size(), p_tour::family_size_le2());
+            s.cases = fam + if thorough { 4000 } else { 60 + 200 };
+            s.cpu_budget_s = 120.0;
+            s.min_nontrivial = 1000;
+            s.extra_coverage.insert("family_networks_total".into(), serde_json::json!(p_tour::family_size()));
+            s.extra_coverage.insert("family_chunks_enumerated".into(), serde_json::json!(fam));
+            s.extra_coverage.insert("exhaustive".into(), serde_json::json!(thorough));
+            s.extra_coverage.insert("exhaustive_note".into(), serde_json::json!(if thorough { "the bounded family was enumerated completely (valid only if no case was inconclusive, see inconclusive_cases)" } else { "quick tier enumerates the <= 2-node part of the family completely and samples the rest" }));
+        }
+        "C15" => {
+            s.rule = format!("(a) bounded-exhaustive: 4 hand-picked vehicles (maintenance-visiting and not, depots P0/P1/overflow) on a fixed small instance, ALL sequences of Transition operations (new_fast, update_vehicle via replace_start/end_depot, add_vehicle_to_own_cycle, remove_vehicle, add_vehicle_at_the_end, move_vehicle incl. into empty cycles, three_opt+replace_cycle) up to length {} from 4 start transitions, bookkeeping (cycles, lookup and empty list through hook H3, counters, totals, successor) recomputed after every operation; (b) random sequences of 50-300 operations on up to 12 vehicles of generated instances; (c) the transitions of pipeline start solutions and the transition optimiser applied to them. non-trivial = distinct operation sequences that passed through a state with an empty cycle, a singleton cycle and a negative counter, plus optimiser runs that changed the transition", p_trans::exhaustive_depth(thorough));
+            s.cases = if thorough { 3000 } else { 520 };
+            s.cpu_budget_s = 120.0;
+            s.extra_coverage.insert("exhaustive".into(), serde_json::json!(true));
+            s.extra_coverage.insert("exhaustive_note".into(), serde_json::json!(format!("all operation sequences up to length {} over the 4-vehicle world were enumerated (cases 0..exhaustive_cases are the subtrees per start world and first operation); valid only if no case was inconclusive", p_trans::exhaustive_depth(thorough))));
         }
         "C14" => {
             s.rule = "instances with decoupled depot totals from the seeded generator; MinCostFlowSolver::solve() is observed through public getters and compared per vehicle type with an independent min-cost circulation (successive shortest paths, lexicographic (vehicles, cost)) over ALL connectable pairs; non-trivial = distinct instances whose start solution chains >= 2 activities in some tour".to_string();
